@@ -82,6 +82,8 @@ def load_one(lit: LineIterator) -> dict:
                 result["bonds"] = bonds
     if not molecule_found:
         raise LoadError("Molecule could not be read.", lit)
+    if nbonds > 0 and "bonds" not in result:
+        raise LoadError("Bond record missing (file truncated?).", lit)
     return result
 
 
